@@ -14,6 +14,7 @@ TARGETS = [
     ("stepdrv2", ["stepdrv2.cpp"], {"sessions": 16}),
     ("stepdrv3", ["stepdrv3.cpp"], {"sessions": 16}),
     ("stepdrv4", ["stepdrv4.cpp"], {"sessions": 16}),
+    ("stepdrv5", ["stepdrv5.cpp"], {"sessions": 16}),
     ("orddrv", ["orddrv.cpp"], {"sessions": 16}),
     ("mapdrv", ["mapdrv.cpp"], {"sessions": 16, "epoch_time": 5}),
 ]
